@@ -303,7 +303,8 @@ class Gen:
         if k == 6:
             return "print '(a)', %s" % self.char_lit(), "print"
         if k == 7:
-            return "rewind(unit = %s)" % self.int_lit(), "rewind"
+            kw = self.ch(["rewind", "backspace", "endfile", "flush"])
+            return self.ch(["%s(unit = %s)", "%s %s", "%s(%s)"]) % (kw, self.int_lit()), "rewind"
         return "write(unit = *, fmt = 900) %s" % items, "write"
 
     def simple_exec(self):
@@ -393,6 +394,8 @@ class Gen:
                 ("objA = typPoint(1.0, %s)" % self.rexpr(1), "structure_constructor"),
                 ("%s = kind(xPos) + len(%s) + xPos%%kind" % (self.ivar(), self.ch(NAMES_CHR)), "type_param_inquiry"),
                 ("%s = %s(2:4) // %s(:3) // %s(%s:)" % (self.ch(NAMES_CHR), "cName", "sTxt", "cName", self.ivar()), "substring"),
+                ("%s = %s(%s:%s) // cName(1:1)" % ((self.ch(NAMES_CHR), "sTxt") + (self.ivar(),) * 2), "substring"),
+                ("aVec(kk:kk) = bMat(iCnt + 1:iCnt + 1, jIdx:jIdx:1)", "array_section"),
                 ("call objA%%pcmp(%s)" % self.rexpr(1), "proc_component_ref"),
                 ("%s = cmplx(1.0, 2.0) * (0.5, -1.5e0)" % "cplxZ", "complex_literal"),
                 ("%s = %s(1:%s:2) + %s(:)" % ("aVec(1:5)", "cBuf", "10", "aVec"), "array_section"),
@@ -676,7 +679,8 @@ class Gen:
         if self.p(0.12):
             t = self.ch(["use, intrinsic :: iso_c_binding, only: c_int, c_double",
                          "use, intrinsic :: iso_fortran_env", "use, non_intrinsic :: userMod, only: opr => myop",
-                         "use :: iso_c_binding, only: operator(+), assignment(=)"])
+                         "use :: iso_c_binding, only: operator(+), assignment(=)",
+                         "use :: userMod, only: read(formatted), write(unformatted), nShared"])
             self.emit(t, kind="use_operator" if "operator" in t else "use_nature")
         r0 = self.r.random()
         if r0 < 0.65:
@@ -903,8 +907,10 @@ class Gen:
         self.spec_part()
         self.emit("real :: argA, argB", kind="decl")
         if internal_ok and self.p(0.15):
-            self.emit(self.ch(["entry altE(argA)", "entry altE"]) if kind == "subroutine"
-                      else self.ch(["entry altE(argA)", "entry altE(argA) result(resW)"]), kind="entry")
+            self.emit(self.ch(["entry altE(argA)", "entry altE", "entry altE()", "entry altE() bind(c, name = \"Alt_E\")"])
+                      if kind == "subroutine"
+                      else self.ch(["entry altE(argA)", "entry altE(argA) result(resW)", "entry altE() result(resW)",
+                                    "entry altE() bind(c)"]), kind="entry")
         self.exec_part()
         if self.p(0.3):
             self.emit("return" if kind != "subroutine" or self.p(0.7) else "return %s" % self.ch(["1", "kk + 1"]),
